@@ -1141,17 +1141,17 @@ func funMin(nums ...*decimal.Big) (*decimal.Big, error) {
 }
 
 func funRound(v *decimal.Big) (*decimal.Big, error) {
-	return newDecimalBig().Round(0), nil
+	// nearest integer, ties away from zero
+	ctx := decimal.Context128
+	ctx.RoundingMode = decimal.ToNearestAway
+	return ctx.RoundToInt(newDecimalBig().Copy(v)), nil
 }
 
 func funRoundBank(v *decimal.Big) (*decimal.Big, error) {
-	// 将 v 的小数部分提取出来
-	mv := newDecimalBig().Rem(v, decimal.New(1, 0))
-	if mv.Cmp(decimal.New(5, -1)) <= 0 {
-		return funCeil(v)
-	} else {
-		return funFloor(v)
-	}
+	// nearest integer, ties to even (banker's rounding)
+	ctx := decimal.Context128
+	ctx.RoundingMode = decimal.ToNearestEven
+	return ctx.RoundToInt(newDecimalBig().Copy(v)), nil
 }
 
 func funRoundCash(v, places *decimal.Big) (*decimal.Big, error) {
